@@ -5,6 +5,7 @@ package c08
 
 import (
 	"bytes"
+	"encoding/hex"
 	"fmt"
 	"math"
 	"strings"
@@ -36,6 +37,96 @@ type kase struct {
 	Input []byte `json:"input"`
 	Gen   string `json:"gen"`
 	Then  []byte `json:"then,omitempty"` // hold family: the input encoded while Input's encoding is held
+}
+
+// knownInput / knownEncodings: what Encode produced for knownInput on the pinned tree. They are used only by the
+// decode-first family: the very first codec call of the process is Decode of such an encoding (a server decodes
+// a query before it has ever encoded anything). A vector that the current Encode no longer produces is stale and
+// is skipped, never reported.
+func knownInput() []byte {
+	in := make([]byte, 48)
+	for i := range in {
+		in[i] = byte(i*37 + 11)
+	}
+	in[0], in[1], in[47] = 0x2b, 0xb8, 0x00
+	return in
+}
+
+var knownEncodings = map[string]string{
+	"Base32": "666f32666b34753579747571326d30797077726d70316172677a6e79626a6f6b33326b64737875647664673565667a326d67646b78756876646935776a636e6f30703262307174687273797161",
+	"Base64": "6b36487645502b653571335a77683149583957726e4c55615043525666644c4547354a6e37484337797941522d7075417031736a5254703368756a4e4a6c6561",
+	"Base64u": "6b36487645505f653571335a77683149583957726e4c55615043525666644c4547354a6e37484337797941522d7075417031736a5254703368756a4e4a6c6561",
+	"Base85": "2f2541542a543e5d7428314b5d282261365842723e4378516d6d684063674b3b6426632848632c775833674d583540665652652b61714d42386a2871",
+	"Base91": "222878304d577c32357644694263532b6d79592d59227b6448564e6f7b53363a702c467552696d673d6f7c535b584f592162532857585b69335041",
+	"Base128": "76ec6bd5d2fd6ae7686de968eb6c70ea69cbc934667876ed6b6f52e6444a42f06ccd6d79315648f36e70eac6cb374ef66fcecaf6e3c261",
+	"Base192": "1d1c1c5e6fb86890975a82765c8f9011242d80294c5d970363b4136325244a7f393428a32fb6304d4f0f957a58675d9855",
+	"Raw": "2bb8557a9fc4e90e33587da2c7ec11365b80a5caef14395e83a8cdf2173c6186abd0f51a3f6489aed3f81d42678cb100",
+}
+
+// evalDecodeFirst must run before any Encode call in the process.
+func evalDecodeFirst(r *mc.Run, only string) {
+	in := knownInput()
+	type res struct {
+		back []byte
+		err  error
+		pan  any
+	}
+	first := map[string]res{}
+	for _, c := range codecs {
+		name := c.e.Name()
+		if only != "" && only != name {
+			continue
+		}
+		raw, _ := hex.DecodeString(knownEncodings[name])
+		func() {
+			defer func() {
+				if p := recover(); p != nil {
+					first[name] = res{pan: p}
+				}
+			}()
+			back, err := c.e.Decode(append([]byte{}, raw...))
+			first[name] = res{back: append([]byte{}, back...), err: err}
+		}()
+	}
+	// only now may Encode run: is the vector what this tree encodes?
+	for _, c := range codecs {
+		name := c.e.Name()
+		f, ok := first[name]
+		if !ok {
+			continue
+		}
+		r.Eval(1)
+		r.Transition(2)
+		raw, _ := hex.DecodeString(knownEncodings[name])
+		if !bytes.Equal(safeEncode(c, in), raw) {
+			r.Note("decode_first_stale_vectors", 1)
+			continue
+		}
+		k := kase{Codec: name, Input: in, Gen: "decode-first"}
+		outcome := "ok"
+		// the reference is the same Decode call made again now that the codec has encoded: whether the value is
+		// the original input is the round-trip family's question (Base192's known finding), not this one's
+		var later res
+		func() {
+			defer func() {
+				if p := recover(); p != nil {
+					later = res{pan: p}
+				}
+			}()
+			back, err := c.e.Decode(append([]byte{}, raw...))
+			later = res{back: append([]byte{}, back...), err: err}
+		}()
+		switch {
+		case f.pan != nil && later.pan == nil:
+			outcome = "panic"
+			r.Fail("decode-first-panic|"+name, fmt.Sprintf("%s: Decode as the first codec call of the process panicked (%v); the same call after an Encode does not", name, f.pan), len(in), k)
+		case f.pan == nil && later.pan == nil && ((f.err == nil) != (later.err == nil) || !bytes.Equal(f.back, later.back)):
+			outcome = "mismatch"
+			r.Fail("decode-first-mismatch|"+name, fmt.Sprintf("%s: Decode of a %d-byte input's encoding returned % x (len %d, err %v) as the first codec call of the process and % x (len %d, err %v) after the codec had encoded once", name, len(in), trunc(f.back), len(f.back), f.err, trunc(later.back), len(later.back), later.err), len(in), k)
+		}
+		r.State(mc.Hash(name, "decode-first", outcome))
+		r.Nontrivial(mc.Hash(name, "decode-first"))
+	}
 }
 
 func forbidden(b byte) bool {
@@ -189,6 +280,10 @@ func TestCheck(t *testing.T) {
 	if r.Replay != nil {
 		var k kase
 		r.DecodeReplay(&k)
+		if k.Gen == "decode-first" {
+			evalDecodeFirst(r, k.Codec)
+			return
+		}
 		for _, c := range codecs {
 			if c.e.Name() == k.Codec {
 				var a [256]bool
@@ -203,6 +298,7 @@ func TestCheck(t *testing.T) {
 		}
 		return
 	}
+	evalDecodeFirst(r, "") // before any Encode in this process
 	idx := 0
 	maxLen := 4096
 	if r.Thorough() {
